@@ -2,6 +2,8 @@ import VaxisModel.Driver.Common
 import VaxisModel.Model.Emu
 import VaxisModel.Model.EmuIO
 import VaxisModel.Model.EmuDcs
+import VaxisModel.Model.EmuReply
+import VaxisModel.Gen.TermBodies
 
 /-! Driver for C05 (stateful). Input lines `op<TAB>impl` where impl = `panic` | `hang` |
 `ev=N <snapshot>` (see Model/EmuIO.lean). Output `model-canon<TAB>impl-canon<TAB>verdict`:
@@ -90,9 +92,33 @@ def stepDcs (st : St) (d : DcsInfo) (impl : String) : St × String :=
               | some why => "FAIL inv: " ++ why
             ({ model := some { s.e with hasVx := false } }, s!"{a}\t{b}\t{verdict}")
 
+/-- Round 5: the bytes the TRANSLATED body of a reply arm writes to the child (`Model.EmuReply.replyOf` on the regenerated
+    `Gen.TermBodies`), with the parameters clamped as csi() does in front of its switch; any other sequence writes nothing. -/
+def modelReply (e : Emu) : EOp → Option (List Nat)
+  | .csi [99] pm => VaxisModel.Model.EmuReply.replyOf VaxisModel.Gen.TermBodies.body_csi_arm_63 (clampParams pm) [] e
+  | .csi [62, 99] pm => VaxisModel.Model.EmuReply.replyOf VaxisModel.Gen.TermBodies.body_csi_arm_3e63 (clampParams pm) [] e
+  | .csi [110] pm => VaxisModel.Model.EmuReply.replyOf VaxisModel.Gen.TermBodies.body_csi_arm_6e (clampParams pm) [] e
+  | .csi [63, 36, 112] pm => VaxisModel.Model.EmuReply.replyOf VaxisModel.Gen.TermBodies.body_decrqm [] [ps (clampParams pm)] e
+  | _ => some []
+
+/-- `rp <op>`: impl = `rp=<hex of what the emulator wrote to its pty>`; the model side is `modelReply`; the state moves on by
+    the model's step (a reply arm leaves it alone: Props/C05Replies `reply_arms_state_untouched`). -/
+def stepRp (st : St) (op impl : String) : St × String :=
+  match parseOp? op, st.model with
+  | some (.op o), some e =>
+    let m := match modelReply e o with
+      | some b => "rp=" ++ hexOfBytes b
+      | none => "rp=not-carried"
+    let st' : St := match emuStep e o with
+      | .ok (e', _) => { model := some e' }
+      | .error _ => {}
+    (st', s!"{m}\t{impl}\t-")
+  | _, _ => (st, "bad-op\tbad-op\tbad-op")
+
 def step (st : St) (line : String) : St × String :=
   let (op, impl) := splitTab line
   if op.startsWith "#case" then ({}, "-\t-\t-") else
+  if op.startsWith "rp " then stepRp st (String.ofList (op.toList.drop 3)) impl else
   match parseDcs? op with
   | some d => stepDcs st d impl
   | none =>
